@@ -6,7 +6,12 @@ V="$(cd "$(dirname "$0")/.." && pwd)"
 S="$(mktemp -d /tmp/mut.XXXXXX)"
 rsync -a --exclude .git /repo/ "$S/repo/"
 mkdir -p "$S/verif"; cp "$V/known_findings.txt" "$S/verif/" 2>/dev/null
-if ! (cd "$S/repo" && patch -p1 -s --no-backup-if-mismatch < "$PATCH"); then echo "PATCH DID NOT APPLY"; rm -rf "$S"; exit 3; fi
+if ! (cd "$S/repo" && patch -p1 -s --no-backup-if-mismatch < "$PATCH" >/dev/null 2>&1); then
+  # the seed was written against the pinned tree; a version rebased onto the fix: commits may sit next to it
+  RB="$(dirname "$PATCH")/patch.rebased.diff"
+  rm -rf "$S/repo"; rsync -a --exclude .git /repo/ "$S/repo/"
+  if [ ! -f "$RB" ] || ! (cd "$S/repo" && patch -p1 -s --no-backup-if-mismatch < "$RB"); then echo "PATCH DID NOT APPLY"; rm -rf "$S"; exit 3; fi
+fi
 [ -x "$V/bin/hclcheck" ] || "$V/check" "$PROP" quick >/dev/null 2>&1
 GOPROXY=off GOWORK=off "$V/bin/hclcheck" -property "$PROP" -tier "$TIER" -repo "$S/repo" -verif "$S/verif" | grep -v "^  \[ok\]" | sed "s#$S/##g"
 rc=$?
